@@ -78,6 +78,12 @@ func genC11(t *rapid.T) *Case {
 	if rapid.IntRange(0, 5).Draw(t, "ugc") == 0 {
 		spec.Base = "UGC"
 	}
+	return &Case{Spec: spec, Input: BStr(genLinkElements(t))}
+}
+
+// genLinkElements: 1-3 a/area/link elements with unique ids and any combination, order and
+// multiplicity of href/rel/target.
+func genLinkElements(t *rapid.T) string {
 	var sb strings.Builder
 	nel := rapid.IntRange(1, 3).Draw(t, "nel")
 	for e := 0; e < nel; e++ {
@@ -110,7 +116,7 @@ func genC11(t *rapid.T) *Case {
 			sb.WriteString("</a>")
 		}
 	}
-	return &Case{Spec: spec, Input: BStr(sb.String())}
+	return sb.String()
 }
 
 func checkC11(c *Case, r *Rec) error {
